@@ -104,6 +104,23 @@ theorem getOrCreateChan_outPacketId (c : Conn) (b : Bunch) (inc : Bool) : (c.get
     · exact createChan_outPacketId c _
     · rfl
 
+@[simp] theorem markClosed_bClose (x : Channel) (r : Nat) : (x.markClosed r).bClose = true := by
+  unfold Channel.markClosed; split <;> simp_all
+@[simp] theorem markClosed_outRec (x : Channel) (r : Nat) : (x.markClosed r).outRec = x.outRec := by
+  unfold Channel.markClosed; split <;> rfl
+@[simp] theorem markClosed_inRec (x : Channel) (r : Nat) : (x.markClosed r).inRec = x.inRec := by
+  unfold Channel.markClosed; split <;> rfl
+@[simp] theorem markClosed_inPartial (x : Channel) (r : Nat) : (x.markClosed r).inPartial = x.inPartial := by
+  unfold Channel.markClosed; split <;> rfl
+@[simp] theorem markClosed_inReliable (x : Channel) (r : Nat) : (x.markClosed r).inReliable = x.inReliable := by
+  unfold Channel.markClosed; split <;> rfl
+@[simp] theorem markClosed_outReliable (x : Channel) (r : Nat) : (x.markClosed r).outReliable = x.outReliable := by
+  unfold Channel.markClosed; split <;> rfl
+@[simp] theorem oweTeardown_getChan (c : Conn) (ch : Nat) : c.oweTeardown.getChan ch = c.getChan ch := rfl
+@[simp] theorem oweTeardown_log (c : Conn) : c.oweTeardown.log = c.log := rfl
+@[simp] theorem oweTeardown_outPacketId (c : Conn) : c.oweTeardown.outPacketId = c.outPacketId := rfl
+@[simp] theorem oweTeardown_has (c : Conn) : c.oweTeardown.hasChannelClose = true := rfl
+
 theorem noteClose_getChan_isSome (c : Conn) (b : Bunch) (ch : Nat) (h : (c.getChan ch).isSome) : ((c.noteClose b).getChan ch).isSome := by
   unfold Conn.noteClose
   split
@@ -118,7 +135,7 @@ theorem noteClose_getChan_isSome (c : Conn) (b : Bunch) (ch : Nat) (h : (c.getCh
     split
     · exact hc
     · rename_i x hx
-      show ((c'.setChan b.chIndex _).getChan ch).isSome
+      rw [oweTeardown_getChan]
       by_cases hch : ch = b.chIndex
       · subst hch; simp
       · rw [getChan_setChan_other _ _ _ _ hch]; exact hc
